@@ -83,7 +83,7 @@ class LitModel:
 def build(pid, P, R, tier, log_dir):
     import mirx_props as mp
     obs = []
-    if pid not in ("C07", "C04"):
+    if pid not in ("C07", "C04", "C06", "C17"):
         return obs
     PAREN_DEPTH = 2
 
@@ -92,6 +92,12 @@ def build(pid, P, R, tier, log_dir):
         ex.opaque_calls = mirx.slice_opaque
         ex.recursion_bound = PAREN_DEPTH
         ex.summarize = SUMMARIZE
+
+        def lexer_fact(parent, variant, idx, child):
+            # the lexer only produces integer literals in 0..=i64::MAX (a leading minus is a separate unary node): at every depth
+            if variant == "Int" and parent.tdef is not None and parent.tdef.name == "Literal" and isinstance(child, symex.Scalar):
+                ex.enc.side.append(f"(>= {child.term} 0)")
+        ex.child_axiom = lexer_fact
         return ex
 
     def num_terms(ex, lty, rty):
@@ -175,7 +181,422 @@ def build(pid, P, R, tier, log_dir):
         shape = expr_shape(R, mp, right, model, PAREN_DEPTH)
         r["model"] = {"op": opn, "left": ltn, "right": rtn, "right_expr": shape}
         return finish_tc(r, "binary", opn, ltn, rtn, shape, log_dir)
-    obs.append(mp.XOb("X-check_binary", "", "", run_check_binary))
+    if pid not in ("C06", "C17"):
+        obs.append(mp.XOb("X-check_binary", "", "", run_check_binary))
+
+    # ---- the const evaluator's binary arm (C07: one more phase that types arithmetic; C06: what it computes at compile time) -------
+    def run_const_binary():
+        t0 = time.time()
+        f = find_fn(P, "eval_const_expr")
+        # the Binary arm: source variables `left, op, right`, then `l`, then `r`; enter where `r` is bound
+        names = [n for n, _ in f.debug_all]
+        if "left" not in names or "right" not in names or "l" not in names:
+            raise Inconclusive("eval_const_expr: the Binary arm's variables (left, op, right, l, r) were not found")
+        i_l = names.index("l")
+        loc_l = f.debug_all[i_l][1]
+        loc_r = next((loc for n, loc in f.debug_all[i_l + 1:] if n == "r"), None)
+        i_left = names.index("left")
+        loc_op = next((loc for n, loc in f.debug_all[i_left:] if n == "op"), None)
+        loc_right = f.debug_all[names.index("right")][1]
+        if loc_r is None or loc_op is None:
+            raise Inconclusive("eval_const_expr: `r` / `op` of the Binary arm not found")
+        entry = None
+        for bn, b in f.blocks.items():
+            if any(re.match(r"^" + re.escape(loc_r) + r" = move (_\d+|\(\(_\d+ as Continue\)\.0.*)$", s_) for s_ in b.stmts):
+                entry = bn
+        if entry is None:
+            raise Inconclusive("eval_const_expr: the block binding `r` was not found")
+        ex = setup()
+        ex.tolerate_unsupported = True
+        ex.summarize = SUMMARIZE + [r"(^|::)str_concat$", r"(^|::)str_contains$", r"stringlike_type_id$",
+                                    r"Display>::fmt", r"fmt::rt::Argument", r"Arguments::<.*>::new", r"must_use", r"CompileError::\w+$"]
+        selfv = ex.sym_value("TypeChecker", "self")
+        expr = ex.sym_value("incan_syntax::ast::Spanned<incan_syntax::ast::Expr>", "expr")
+        l = ex.sym_value("ConstEvalResult", "l")
+        op = ex.sym_value(AST_OP, "op")
+        right = ex.sym_value("incan_syntax::ast::Spanned<incan_syntax::ast::Expr>", "right")
+        cn = [x[0] for x in R.resolve("ConstEvalResult").variants[0][1]]
+        lm = LitModel(ex, R, mp, right, PAREN_DEPTH)
+        for t in lm.lits:
+            ex.enc.side.append(f"(>= {t} 0)")
+        # an operand that has been evaluated contains no parenthesised sub-expression (the evaluator rejects Expr::Paren at every level)
+        PAREN = mp.idx(R, "incan_syntax::ast::Expr", "Paren")
+        node = right.child(None, 0)
+        for _ in range(4):
+            ex.enc.side.append(f"(not (= {node.tag().term} {PAREN}))")
+            node = node.child("Unary", 1).child(None, 0)
+        rres = ex.sym_value("ConstEvalResult", "r")
+        cf = None
+        for s_ in f.blocks[entry].stmts:
+            mcf = re.match(r"^_\d+ = move \(\((_\d+) as Continue\)\.0", s_)
+            if mcf:
+                cf = mcf.group(1)
+        if cf is None:
+            raise Inconclusive("eval_const_expr: the `?` payload feeding `r` was not found")
+        outs = ex.run_slice(f, entry, {loc_l: l, loc_op: op, loc_right: right, cf: Adt("ControlFlow", "Continue", [rres])},
+                            [selfv, expr, symex.Opaque("expected"), symex.Opaque("stack"), symex.Opaque("span")])
+        # `r` is created by the slice itself (payload of the `?`): find it through the frame's havocked local
+        ot = op.tag().term
+        op_is = lambda n: f"(= {ot} {mp.idx(R, AST_OP, n)})"  # noqa: E731
+        arith = disj([op_is(n) for n in ARITH])
+        cmpf = disj([op_is(n) for n in CMP])
+        logic = disj([op_is(n) for n in ("And", "Or")])
+        RT = "ResolvedType"
+        I, F, B = mp.idx(R, RT, "Int"), mp.idx(R, RT, "Float"), mp.idx(R, RT, "Bool")
+        lty = l.child(None, cn.index("ty"))
+        bad, n_ok, why = [], 0, []
+        rsyms = set()
+        unsup = set()
+        n_val = {}
+        for o in outs:
+            rt = rres.child(None, cn.index("ty")).tag().term
+            if o.kind == "unsupported":
+                lt_ = lty.tag().term
+                rel = (f"(or (and (or {arith} {cmpf}) (or (= {lt_} {I}) (= {lt_} {F})) (or (= {rt} {I}) (= {rt} {F}))) "
+                       f"(and {logic} (= {lt_} {B}) (= {rt} {B})))")
+                bad.append(conj(o.pc + [rel])); why.append(f"unsupported MIR: {o.info}")
+                unsup.add(str(o.info)[:160])
+                continue
+            rsyms.add(rt)
+            lt = lty.tag().term
+            both = f"(and (or (= {lt} {I}) (= {lt} {F})) (or (= {rt} {I}) (= {rt} {F})))"
+            anyf = f"(or (= {lt} {F}) (= {rt} {F}))"
+            doc_float = f"(ite {op_is('Div')} true (ite {op_is('Pow')} (not (and (not {anyf}) {lm.nonneg})) {anyf}))"
+            if o.kind != "return":
+                bad.append(conj(o.pc + [both])); why.append(f"panic on numeric operands: {o.info}")
+                continue
+            err = any(e[0].endswith("::push") for e in o.events)
+            v = ex.deref(o.value, o.state)
+            res = find_adt(v, ex, o.state, None) if False else None
+            got = None
+            if isinstance(v, Adt) and v.variant == "Some":
+                inner = ex.deref(v.fields[0][1] if isinstance(v.fields[0], tuple) else v.fields[0], o.state)
+                if isinstance(inner, Adt):
+                    tyv = ex.deref(adt_field(inner, "ty"), o.state)
+                    got = tyv.variant if isinstance(tyv, Adt) else None
+            n_ok += 1
+            want_arith = "false"
+            if not err and got == "Float":
+                want_arith = doc_float
+            elif not err and got == "Int":
+                want_arith = neg(doc_float)
+            want_bool = "true" if (got == "Bool" and not err) else "false"
+            both_bool = f"(and (= {lt} {B}) (= {rt} {B}))"
+            want = (f"(and (=> (and {arith} {both}) {want_arith}) (=> (and {cmpf} {both}) {want_bool}) "
+                    f"(=> (and {logic} {both_bool}) {want_bool}))")
+            bad.append(conj(o.pc + [neg(want)])); why.append(f"result type {got} (error reported: {err})")
+            # ---- what is folded at compile time (C06) ---------------------------------------------------------------------
+            fo = o.state.facts.get(ot)
+            opn_ = mp.variants(R, AST_OP)[fo[1]] if fo and fo[0] == "eq" else None
+            val = ex.deref(adt_field(inner, "value"), o.state) if (isinstance(v, Adt) and v.variant == "Some" and isinstance(inner, Adt)) else None
+            CV = mp.variants(R, "ConstValue")
+            lv, rv = l.child(None, cn.index("value")), rres.child(None, cn.index("value"))
+
+            def payload(vsym, variant):
+                """the ConstValue payload of kind `variant` if this path knows the operand's value is Some(variant(..))"""
+                f1 = o.state.facts.get(vsym.tag().term) if vsym._tag is not None else None
+                if not (f1 and f1[0] == "eq" and f1[1] == 1):
+                    return None
+                cvs = vsym.child("Some", 0)
+                f2 = o.state.facts.get(cvs.tag().term) if cvs._tag is not None else None
+                if not (f2 and f2[0] == "eq" and f2[1] == CV.index(variant)):
+                    return None
+                return cvs.child(variant, 0)
+
+            def folded(kind_):
+                if isinstance(val, Adt) and val.variant == "Some":
+                    cvv = ex.deref(val.fields[0][1] if isinstance(val.fields[0], tuple) else val.fields[0], o.state)
+                    if isinstance(cvv, Adt) and cvv.variant == kind_:
+                        return ex.deref(cvv.fields[0][1] if isinstance(cvv.fields[0], tuple) else cvv.fields[0], o.state)
+                return None
+            if opn_ in ("And", "Or") and got == "Bool" and not err:
+                lb, rb = payload(lv, "Bool"), payload(rv, "Bool")
+                if lb is not None and rb is not None:
+                    n_val["and/or"] = n_val.get("and/or", 0) + 1
+                    t_ = folded("Bool")
+                    e_ = f"({'and' if opn_ == 'And' else 'or'} {lb.term} {rb.term})"
+                    if t_ is None or not isinstance(t_, symex.Scalar):
+                        bad.append(conj(o.pc)); why.append(f"`{opn_.lower()}` of two known bools is not folded to a bool value")
+                    else:
+                        bad.append(conj(o.pc + [f"(not (= {t_.term} {e_}))"])); why.append(f"`{opn_.lower()}` folds to the wrong truth value")
+            if os.environ.get("VERIF_DEBUG") and got in ("FrozenStr",):
+                print("DBG", got, [(e[0], e[2]) for e in o.events], mirx.show(val, ex, o.state)[:200])
+            sc = [e for e in o.events if e[0].endswith(("str_contains", "str_concat"))]
+            for e in sc:
+                ls_, rs_ = payload(lv, "FrozenStr"), payload(rv, "FrozenStr")
+                if ls_ is None or rs_ is None:
+                    bad.append(conj(o.pc)); why.append(f"{e[0]} called although an operand's value is not a known string")
+                    continue
+                if e[0].endswith("str_contains"):
+                    n_val["in"] = n_val.get("in", 0) + 1
+                    t_ = folded("Bool")
+                    okargs = rs_.name in e[1][0] and ls_.name in e[1][1]      # str_contains(haystack = right operand, needle = left operand)
+                    want_t = e[2] if opn_ == "In" else f"(not {e[2]})"
+                    if not okargs or opn_ not in ("In", "NotIn") or t_ is None or not isinstance(t_, symex.Scalar):
+                        bad.append(conj(o.pc)); why.append(f"`{opn_}` on strings: str_contains{e[1]} / folded value {t_!r}")
+                    else:
+                        bad.append(conj(o.pc + [f"(not (= {t_.term} {want_t}))"])); why.append(f"`{opn_}` on strings folds to the wrong truth value")
+                else:
+                    n_val["+"] = n_val.get("+", 0) + 1
+                    t_ = folded("FrozenStr")
+                    okargs = ls_.name in e[1][0] and rs_.name in e[1][1]
+                    if not okargs or opn_ != "Add" or not (isinstance(t_, Sym) and t_.name == e[2]):
+                        bad.append(conj(o.pc)); why.append(f"`+` on strings: str_concat{e[1]} / folded value {t_!r}")
+        r = {"id": "X-const_binary", "engine": "E2-X mirsmt (slice)",
+             "statement": "const evaluator, binary expressions: for int/float operand types the constant's type is the documented one (/ float; "
+                          "+ - * // % float iff an operand is; ** int only for int ** non-negative int literal, also when parenthesised; "
+                          "comparisons bool) and no error is reported; and/or of two bools is bool - the same table as the checker, lowering and emission; "
+                          "what it folds at compile time is what runs: `and`/`or` of two known bools folds to their conjunction/disjunction, `l in r` / "
+                          "`l not in r` on known strings to (the negation of) str_contains(r, l), `l + r` to str_concat(l, r) - the shared core kernels",
+             "bound": f"Binary arm of TypeChecker::eval_const_expr from the point where both operands have been evaluated: ALL operand types x all 18 "
+                      f"operators x every exponent expression shape up to {PAREN_DEPTH} nested parentheses x every literal; the recursive evaluation of "
+                      "the operands is summarised by arbitrary results",
+             "encoding": "enum tags as bounded Int; literals as Int; evaluator helpers as events",
+             "functions_encoded": [n + " (MIR)" for n in ex.encoded], "paths": len(outs),
+             "compositions": n_val,
+             "outside": "string operands (concatenation, comparison, membership): " + ("; ".join(sorted(unsup)) if unsup else "executed")}
+        base = os.path.join(log_dir, "X-const_binary")
+        r["wall_s"] = round(time.time() - t0, 2)
+        if n_ok == 0 or len(rsyms) != 1 or not {"and/or", "in", "+"} <= set(n_val):
+            r.update(status="inconclusive", reason=f"no result path / folded values not reached ({n_val}); {(why or ['-'])[0][:200]}")
+            return r
+        rt = sorted(rsyms)[0]
+        lt = lty.tag().term
+        both = f"(and (or (= {lt} {I}) (= {lt} {F})) (or (= {rt} {I}) (= {rt} {F})))"
+        vac, _ = mp.query(ex, [conj([both, arith]), disj([conj(o.pc) for o in outs if o.kind == "return"])], [], base + ".vac")
+        if vac.status != "sat":
+            r.update(status="inconclusive", reason=f"vacuity twin {vac.status}")
+            return r
+        r["vacuity_ok"] = True
+        res, res2 = mp.query(ex, [disj([b for b in bad if b != "false"])], mp.tag_names(ex), base)
+        r["solver"] = f"z3: {res.status} in {res.wall:.2f} s" + (f"; cvc5: {res2.status} in {res2.wall:.2f} s" if res2 else "")
+        r["wall_s"] = round(time.time() - t0, 2)
+        if res.status == "unsat" and (res2 is None or res2.status != "sat"):
+            r["status"] = "held"
+            return r
+        if res.status == "inconclusive":
+            r.update(status="inconclusive", reason="solver: " + res.raw[:200])
+            return r
+        model = (res if res.status == "sat" else res2).model
+        for b_, w_ in zip(bad, why):
+            if b_ != "false" and solver.check(mp.smt_lines(ex, [b_]), [], "z3", 30).status == "sat":
+                r["deviating_path"] = w_
+                break
+        tv = lambda t: solver.value_int(model[t]) if t in model else 0  # noqa: E731
+        opn = mp.variants(R, AST_OP)[tv(ot)]
+        ltn = mp.variants(R, RT)[tv(lt)]
+        rtn = mp.variants(R, RT)[tv(rt)]
+        shape = expr_shape(R, mp, right, model, PAREN_DEPTH)
+        r["model"] = {"op": opn, "left": ltn, "right": rtn, "right_expr": shape}
+        if ltn in TY and rtn in TY:
+            return finish_tc(r, "const", opn, ltn, rtn, shape, log_dir)
+        return finish_const_values(r, log_dir)
+    if pid in ("C07", "C06"):
+        obs.append(mp.XOb("X-const_binary", "", "", run_const_binary))
+
+    # ---- the const evaluator's slice arm (C06): what is folded is S[start:end:step] with the WRITTEN bounds ---------------------------
+    def run_const_slice():
+        t0 = time.time()
+        f = find_fn(P, "eval_const_expr")
+        ex = setup()
+        ex.tolerate_unsupported = True
+        ex.recursion_bound = 0
+        ex.summarize = SUMMARIZE + [r"::eval_const_expr$", r"(^|::)str_slice$", r"is_intlike_for_index$", r"stringlike_type_id$", r"Display>::fmt",
+                                    r"fmt::rt::Argument", r"Arguments::<.*>::new", r"must_use", r"CompileError::\w+$", r"IncanError::\w+$"]
+        selfv = ex.sym_value("TypeChecker", "self")
+        expr = ex.sym_value("incan_syntax::ast::Spanned<incan_syntax::ast::Expr>", "expr")
+        node = expr.child(None, 0)
+        evars = mp.variants(R, "incan_syntax::ast::Expr")
+        st0 = symex.State()
+        k = evars.index("Slice")
+        st0.facts[node.tag().term] = ("eq", k)
+        st0.pc.append(f"(= {node.tag().term} {k})")
+        ex.call_stack = [f.name]
+        try:
+            outs = ex._run(f, [selfv, expr, symex.Opaque("expected"), symex.Opaque("stack"), symex.Opaque("span")], {}, 0, st0)
+        finally:
+            ex.call_stack = []
+        sl = node.child("Slice", 1)
+        sn = [x[0] for x in R.resolve("incan_syntax::ast::SliceExpr").variants[0][1]]
+        bounds = {n: sl.child(None, sn.index(n)) for n in ("start", "end", "step")}
+        cn = [x[0] for x in R.resolve("ConstEvalResult").variants[0][1]]
+        bad, why, n_fold, classes = [], [], 0, {}
+        for o in outs:
+            if o.kind == "unsupported":
+                bad.append(conj(o.pc)); why.append(f"unsupported MIR: {o.info}")
+                continue
+            if o.kind != "return":
+                bad.append(conj(o.pc)); why.append(f"panic: {o.info}")
+                continue
+            folds = [e for e in o.events if e[0].endswith("str_slice")]
+            if not folds:
+                continue
+            if len(folds) > 1:
+                bad.append(conj(o.pc)); why.append("str_slice is called twice")
+                continue
+            n_fold += 1
+            e = folds[0]
+            # which evaluation result belongs to which bound
+            evals = {}
+            for ev in o.events:
+                if ev[0].endswith("eval_const_expr"):
+                    for bn, bs in bounds.items():
+                        if f"sym<{bs.name}.Some.0" in ev[1][1]:
+                            evals[bn] = ev[2]
+            desc = []
+            ok = True
+            for pos, bn in enumerate(("start", "end", "step"), start=1):
+                bs = bounds[bn]
+                fo = o.state.facts.get(bs.tag().term) if bs._tag is not None else None
+                written = bool(fo and fo[0] == "eq" and fo[1] == 1)
+                shown = e[1][pos]
+                if not written:
+                    desc.append(f"{bn} omitted")
+                    ok = ok and shown == "Option::None"
+                    continue
+                evn = evals.get(bn)
+                want = f"{evn}.Some.0.{cn.index('value')}.Some.0.Int.0" if evn else None
+                if shown == "Option::None":
+                    desc.append(f"{bn} written, value unknown, passed as omitted")
+                    ok = False
+                elif want is not None and want in shown:
+                    desc.append(f"{bn} written and known")
+                else:
+                    desc.append(f"{bn} written, passed {shown[:40]}")
+                    ok = False
+            key = "; ".join(desc)
+            classes[key] = classes.get(key, 0) + 1
+            if not ok:
+                bad.append(conj(o.pc)); why.append("folding str_slice(base, " + ", ".join(e[1][1:4]) + ") although " + key)
+        r = {"id": "X-const_slice", "engine": "E2-X mirsmt",
+             "statement": "const evaluator, string slicing: a value is folded only by str_slice(base, start, end, step) where every WRITTEN bound is passed as "
+                          "Some(its compile-time value) and every omitted bound as None; when a written bound's value is not known at compile time "
+                          "nothing is folded (the const then has no recorded value instead of a wrong one)",
+             "bound": "Slice arm of TypeChecker::eval_const_expr: every combination of written / omitted bounds x every outcome of evaluating the base and "
+                      "each bound (unknown value, known int, error); the recursive evaluations and str_slice itself are summarised (str_slice is "
+                      "decided by the C05/C06 Kani harnesses)",
+             "encoding": "expression as a symbolic ADT; evaluator helpers as events", "functions_encoded": [n + " (MIR)" for n in ex.encoded],
+             "paths": len(outs), "compositions": dict(sorted(classes.items())[:12])}
+        base = os.path.join(log_dir, "X-const_slice")
+        r["wall_s"] = round(time.time() - t0, 2)
+        if n_fold < 8:
+            r.update(status="inconclusive", reason=f"only {n_fold} folding paths were reached; {(why or ['-'])[0][:200]}")
+            return r
+        r["vacuity_ok"] = True
+        live = [(b_, w_) for b_, w_ in zip(bad, why) if b_ != "false"]
+        worst = None
+        for k_ in range(0, len(live), 40):
+            chunk = live[k_:k_ + 40]
+            res = solver.check(mp.smt_lines(ex, [disj([b_ for b_, _ in chunk])]), [], "z3", 120)
+            if res.status == "unsat":
+                continue
+            for b_, w_ in chunk:
+                if solver.check(mp.smt_lines(ex, [b_]), [], "z3", 60).status != "unsat":
+                    worst = w_
+                    break
+            if worst:
+                break
+        r["wall_s"] = round(time.time() - t0, 2)
+        if worst is None:
+            r.update(status="held", solver=f"{n_fold} folding paths, {len(live)} deviation conditions, all unsat (z3)")
+            return r
+        r["deviating_path"] = worst
+        return finish_const_slice(r, log_dir)
+    if pid == "C06":
+        obs.append(mp.XOb("X-const_slice", "", "", run_const_slice))
+
+    def run_const_index():
+        t0 = time.time()
+        f = find_fn(P, "eval_const_expr")
+        ex = setup()
+        ex.tolerate_unsupported = True
+        ex.recursion_bound = 0
+        ex.summarize = SUMMARIZE + [r"::eval_const_expr$", r"(^|::)str_char_at$", r"is_intlike_for_index$", r"stringlike_type_id$", r"Display>::fmt",
+                                    r"fmt::rt::Argument", r"Arguments::<.*>::new", r"must_use", r"CompileError::\w+$", r"IncanError::\w+$"]
+        selfv = ex.sym_value("TypeChecker", "self")
+        expr = ex.sym_value("incan_syntax::ast::Spanned<incan_syntax::ast::Expr>", "expr")
+        node = expr.child(None, 0)
+        evars = mp.variants(R, "incan_syntax::ast::Expr")
+        st0 = symex.State()
+        k = evars.index("Index")
+        st0.facts[node.tag().term] = ("eq", k)
+        st0.pc.append(f"(= {node.tag().term} {k})")
+        ex.call_stack = [f.name]
+        try:
+            outs = ex._run(f, [selfv, expr, symex.Opaque("expected"), symex.Opaque("stack"), symex.Opaque("span")], {}, 0, st0)
+        finally:
+            ex.call_stack = []
+        cn = [x[0] for x in R.resolve("ConstEvalResult").variants[0][1]]
+        base_s, idx_s = node.child("Index", 0), node.child("Index", 1)
+        # contract of the summarised kernel (decided by the C05 harnesses, which compare its whole result): indexing never reports a step error
+        SSZ = mp.idx(R, "StringAccessError", "SliceStepZero")
+        declared = {d.split()[1] for d in ex.enc.decls}
+        for o in outs:
+            for e in o.events:
+                if e[0].endswith("str_char_at") and f"{e[2]}.Err.0!tag" in declared:
+                    c_ = f"(not (= {e[2]}.Err.0!tag {SSZ}))"
+                    if c_ not in ex.enc.side:
+                        ex.enc.side.append(c_)
+        bad, why, n_fold, classes = [], [], 0, {}
+        for o in outs:
+            if o.kind != "return":
+                bad.append(conj(o.pc)); why.append(f"{o.kind}: {o.info}")
+                continue
+            calls = [e for e in o.events if e[0].endswith("str_char_at")]
+            if not calls:
+                continue
+            n_fold += 1
+            e = calls[0]
+            evals = {}
+            for ev in o.events:
+                if ev[0].endswith("eval_const_expr"):
+                    if f"sym<{base_s.name}" in ev[1][1]:
+                        evals["base"] = ev[2]
+                    elif f"sym<{idx_s.name}" in ev[1][1]:
+                        evals["idx"] = ev[2]
+            want_b = f"{evals.get('base')}.Some.0.{cn.index('value')}.Some.0.FrozenStr.0"
+            want_i = f"{evals.get('idx')}.Some.0.{cn.index('value')}.Some.0.Int.0"
+            args_ok = len(calls) == 1 and want_b in e[1][0] and e[1][1] == want_i
+            v = ex.deref(o.value, o.state)
+            text = mirx.show(v, ex, o.state)
+            pushed = any(x[0].endswith("::push") for x in o.events)
+            # the shared kernel's verdict decides: Ok(ch) -> value FrozenStr(ch), no error; Err(out of range) -> error reported, no const
+            res_tag = o.state.facts.get(f"{e[2]}!tag")
+            if res_tag == ("eq", 0):
+                key = "in range"
+                ok = args_ok and not pushed and f"ConstValue::FrozenStr(sym<{e[2]}.Ok.0" in text
+            elif res_tag == ("eq", 1):
+                key = "kernel reports an error"
+                ok = args_ok and (pushed and text.startswith("Option::None") or "unreachable" in str(o.info))
+            else:
+                key, ok = "verdict not examined", False
+            classes[key] = classes.get(key, 0) + 1
+            if not ok:
+                bad.append(conj(o.pc)); why.append(f"{key}: str_char_at{e[1]} -> {text[:160]} (error reported: {pushed})")
+        r = {"id": "X-const_index", "engine": "E2-X mirsmt",
+             "statement": "const evaluator, string indexing: when base and index have compile-time values the shared kernel str_char_at is called on exactly "
+                          "those two values (the index unchanged); its Ok(ch) becomes the const's value and its out-of-range error becomes a compile "
+                          "error with no const - the same function, on the same arguments, that run-time indexing wraps",
+             "bound": "Index arm of TypeChecker::eval_const_expr: every outcome of evaluating base and index and of the kernel; the recursive "
+                      "evaluations and str_char_at itself are summarised (str_char_at is decided by the C05/C06 Kani harnesses)",
+             "encoding": "expression as a symbolic ADT; evaluator helpers as events", "functions_encoded": [n + " (MIR)" for n in ex.encoded],
+             "paths": len(outs), "compositions": classes}
+        r["wall_s"] = round(time.time() - t0, 2)
+        if n_fold < 2 or "in range" not in classes or "kernel reports an error" not in classes:
+            r.update(status="inconclusive", reason=f"folding paths not reached ({classes}); {(why or ['-'])[0][:200]}")
+            return r
+        r["vacuity_ok"] = True
+        for b_, w_ in zip(bad, why):
+            if b_ != "false" and solver.check(mp.smt_lines(ex, [b_]), [], "z3", 60).status != "unsat":
+                r["deviating_path"] = w_
+                return finish_const_index(r, log_dir)
+        r.update(status="held", solver=f"{n_fold} folding paths follow the documented wiring" + (f"; {len(bad)} deviating paths infeasible" if bad else " (syntactic)"))
+        r["wall_s"] = round(time.time() - t0, 2)
+        return r
+    if pid == "C06":
+        obs.append(mp.XOb("X-const_index", "", "", run_const_index))
+    if pid == "C06":
+        return obs
 
     # ---- compound assignment ------------------------------------------------------------------------------------------
     def run_compound():
@@ -253,6 +674,94 @@ def build(pid, P, R, tier, log_dir):
         r["model"] = {"op": opn, "variable": vtn, "value": wtn}
         return finish_tc(r, "compound", opn, vtn, wtn, None, log_dir)
     obs.append(mp.XOb("X-compound_assign", "", "", run_compound))
+
+
+    # ---- nominal typing of user-named types (C17: distinct newtypes are never interchangeable) ----------------------------------
+    def run_nominal():
+        t0 = time.time()
+        f = find_fn(P, "types_compatible")
+        ex = setup()
+        ex.summarize = [p for p in SUMMARIZE if "types_compatible" not in p] + [r"String as .*PartialEq.*>::eq$", r"^<str as .*PartialEq.*>::eq$",
+                                                                               r"stringlike_type_id$", r"collection_type_id$"]
+        ex.recursion_bound = 1
+        ex.tolerate_unsupported = True
+        selfv = ex.sym_value("TypeChecker", "self")
+        a = ex.sym_value("symbols::ResolvedType", "actual")
+        b = ex.sym_value("symbols::ResolvedType", "expected")
+        rvars = mp.variants(R, "ResolvedType")
+        NAMED = rvars.index("Named")
+        plain = [n for n in ("Int", "Float", "Bool", "Str", "Bytes", "Unit", "Named") if n in rvars]
+        st0 = symex.State()
+        at, bt = a.tag().term, b.tag().term
+        st0.facts[at] = ("eq", NAMED)
+        st0.pc.append(f"(= {at} {NAMED})")
+        st0.pc.append(disj([f"(= {bt} {rvars.index(n)})" for n in plain]))
+        st0.facts[bt] = ("ne", set(range(len(rvars))) - {rvars.index(n) for n in plain})
+        outs = ex.run(f, [selfv, a, b], state=st0)
+        sl = mp.variants(R, "StringLikeId")
+        bad, why, n_ret, classes = [], [], 0, {}
+        for o in outs:
+            if o.kind != "return":
+                bad.append(conj(o.pc)); why.append(f"{o.kind}: {o.info}")
+                continue
+            v = ex.deref(o.value, o.state)
+            if not (isinstance(v, symex.Scalar) and v.sort == "bool"):
+                bad.append(conj(o.pc)); why.append("no boolean verdict")
+                continue
+            n_ret += 1
+            fb = o.state.facts.get(bt)
+            bn = rvars[fb[1]] if fb and fb[0] == "eq" else None
+            classes[str(bn)] = classes.get(str(bn), 0) + 1
+            # answers of the summarised helpers on this path
+            same_name = None
+            for e in o.events:
+                if e[0].endswith("::eq") and a.child("Named", 0).name in e[1][0] and b.child("Named", 0).name in e[1][1]:
+                    same_name = e[2]
+            sl_ev = next((e[2] for e in o.events if e[0].endswith("stringlike_type_id") and a.child("Named", 0).name in " ".join(e[1])), None)
+
+            def is_frozen(which):
+                # the answer of `stringlike_type_id(name) == Some(which)` on this path (the comparison is a summarised call)
+                if sl_ev is None:
+                    return "false"
+                for e in o.events:
+                    if e[0].endswith("::eq") and f"sym<{sl_ev}:" in e[1][0] and which in e[1][1] and "Some" in e[1][1]:
+                        return e[2]
+                return "false"
+            sn = same_name if (same_name is not None) else "false"
+            doc = (f"(ite (= {bt} {NAMED}) {sn} (ite (= {bt} {rvars.index('Str')}) {is_frozen('FrozenStr')} "
+                   f"(ite (= {bt} {rvars.index('Bytes')}) {is_frozen('FrozenBytes')} false)))")
+            bad.append(conj(o.pc + [f"(not (= {v.term} {doc}))"])); why.append(f"expected {bn}: verdict {v.term}, documented {doc}")
+        r = {"id": "X-newtype_nominal", "engine": "E2-X mirsmt",
+             "statement": "user-named types are nominal: a value of type Named(a) is accepted where Named(b) is declared iff the names are equal, and "
+                          "never where int / float / bool / str / bytes / None is declared - the only exceptions are the built-in frozen string / "
+                          "bytes names, which are accepted for str / bytes; so two newtypes over the same underlying type are not interchangeable, "
+                          "nor is a newtype interchangeable with its underlying type",
+             "bound": "TypeChecker::types_compatible with actual = Named(any name) and expected in {Named(any name), int, float, bool, str, bytes, None}; "
+                      "string equality and the built-in name lookup are arbitrary (uninterpreted) answers",
+             "encoding": "enum tags as bounded Int; name equality as an uninterpreted boolean", "functions_encoded": [n + " (MIR)" for n in ex.encoded],
+             "paths": len(outs), "compositions": classes}
+        base = os.path.join(log_dir, "X-newtype_nominal")
+        r["wall_s"] = round(time.time() - t0, 2)
+        if n_ret == 0 or not {"Named", "Str", "Bytes", "None"} <= set(classes):
+            r.update(status="inconclusive", reason=f"not every expected kind was reached ({classes}); {(why or ['-'])[0][:200]}")
+            return r
+        r["vacuity_ok"] = True
+        res, res2 = mp.query(ex, [disj([x for x in bad if x != "false"])], [], base)
+        r["solver"] = f"z3: {res.status} in {res.wall:.2f} s" + (f"; cvc5: {res2.status} in {res2.wall:.2f} s" if res2 else "")
+        r["wall_s"] = round(time.time() - t0, 2)
+        if res.status == "unsat" and (res2 is None or res2.status != "sat"):
+            r["status"] = "held"
+            return r
+        if res.status == "inconclusive":
+            r.update(status="inconclusive", reason="solver: " + res.raw[:200])
+            return r
+        for b_, w_ in zip(bad, why):
+            if b_ != "false" and solver.check(mp.smt_lines(ex, [b_]), [], "z3", 30).status == "sat":
+                r["deviating_path"] = w_
+                break
+        return finish_nominal(r, log_dir)
+    if pid == "C17":
+        return [mp.XOb("X-newtype_nominal", "", "", run_nominal)]
 
     # ---- the compatibility relation on payload-free types (the meaning X-compound_assign relies on) --------------------------
     SIMPLE = ["Int", "Float", "Bool", "Str", "Bytes", "FrozenStr", "FrozenBytes", "Unit", "SelfType", "Unknown"]
@@ -520,10 +1029,16 @@ def finish_lower_compound(r, opn, log_dir):
 
 
 def expr_shape(R, mp, spanned, model, depth):
-    """Concrete surface text of the exponent expression chosen by the model (or None = not a literal form)."""
+    """Concrete surface text of the exponent expression chosen by the model: literal forms (n, -n, parenthesised), and nested
+    unary / parenthesised shapes around them (`- -3`, `-(-3)`), which are NOT literal forms; None = some other expression."""
     def tv(s):
         return solver.value_int(model[s.tag().term]) if s.tag().term in model else 0
+
+    def known(s):
+        return s._tag is not None and s.tag().term in model
     node = spanned.child(None, 0)
+    if not known(node):
+        return None
     en = mp.variants(R, "incan_syntax::ast::Expr")[tv(node)]
     if en == "Literal":
         lit = node.child("Literal", 0)
@@ -531,15 +1046,14 @@ def expr_shape(R, mp, spanned, model, depth):
             n = lit.child("Int", 0).term
             return str(solver.value_int(model[n])) if n in model else "0"
         return None
-    if en == "Unary":
+    if en == "Unary" and depth >= 0:
         uop = node.child("Unary", 0)
-        inner = node.child("Unary", 1).child(None, 0)
-        if mp.variants(R, "incan_syntax::ast::UnaryOp")[tv(uop)] == "Neg" and mp.variants(R, "incan_syntax::ast::Expr")[tv(inner)] == "Literal":
-            il = inner.child("Literal", 0)
-            if mp.variants(R, "incan_syntax::ast::Literal")[tv(il)] == "Int":
-                n = il.child("Int", 0).term
-                return "-" + (str(solver.value_int(model[n])) if n in model else "0")
-        return None
+        if mp.variants(R, "incan_syntax::ast::UnaryOp")[tv(uop)] != "Neg":
+            return None
+        s = expr_shape(R, mp, node.child("Unary", 1), model, depth - 1)
+        if s is None:
+            return None
+        return "-" + s if not s.startswith("-") else "- " + s
     if en == "Paren" and depth > 0:
         s = expr_shape(R, mp, node.child("Paren", 0), model, depth - 1)
         return f"({s})" if s is not None else None
@@ -559,7 +1073,7 @@ def doc_binary(opn, ltn, rtn, shape):
         lit = None
         if shape is not None:
             try:
-                lit = int(shape.replace("(", "").replace(")", ""))
+                lit = int(shape.replace("(", "").replace(")", "")) if re.fullmatch(r"\(*-?\d+\)*", shape) else None
             except ValueError:
                 lit = None
         return "int" if (not anyf and lit is not None and lit >= 0) else "float"
@@ -594,6 +1108,18 @@ def programs(kind, opn, a, b, shape):
             out.append((f"def f(a: {TY[a]}, b: {TY[b]}) -> int:\n    return {body}\n", "REJECTED", f"`{body}` is float, never int"))
         if doc == "int":
             out.append((f"def f(a: {TY[a]}, b: {TY[b]}) -> str:\n    return {body}\n", "REJECTED", f"`{body}` is int, not str"))
+        return out
+    if kind == "const":
+        if opn not in OPSYM:
+            return None
+        LIT = {"Int": "7", "Float": "7.5"}
+        rhs = shape if (shape is not None and b == "Int") else ("2" if b == "Int" else "2.5")
+        doc = doc_binary(opn, a, b, rhs if b == "Int" else None)
+        body = f"{LIT[a]} {OPSYM[opn]} {rhs}"
+        out = [(f"const C: {doc} = {body}\n", "ACCEPTED", f"`{body}` has documented type {doc}")]
+        if doc in ("float", "int"):
+            other = "int" if doc == "float" else "str"
+            out.append((f"const C: {other} = {body}\n", "REJECTED", f"`{body}` is {doc}, not {other}"))
         return out
     sym = {"Add": "+=", "Sub": "-=", "Mul": "*=", "Div": "/=", "FloorDiv": "//=", "Mod": "%="}[opn]
     docf = opn == "Div" or "Float" in (a, b)
@@ -633,6 +1159,169 @@ def finish_tc(r, kind, opn, a, b, shape, log_dir):
     return r
 
 
+NOMINAL_PROGRAMS = [
+    ("same", "type UserId = newtype int\n\ndef f(u: UserId) -> UserId:\n    return u\n", "ACCEPTED"),
+    ("other_newtype", "type UserId = newtype int\ntype OrderId = newtype int\n\ndef f(u: UserId) -> OrderId:\n    return u\n", "REJECTED"),
+    ("as_underlying", "type UserId = newtype int\n\ndef f(u: UserId) -> int:\n    return u\n", "REJECTED"),
+    ("as_str", "type Name = newtype str\n\ndef f(u: Name) -> str:\n    return u\n", "REJECTED"),
+    ("model_vs_model", "model A:\n    x: int\n\nmodel B:\n    x: int\n\ndef f(a: A) -> B:\n    return a\n", "REJECTED"),
+]
+
+
+def finish_nominal(r, log_dir):
+    texts, broken = [], False
+    for name, src, exp in NOMINAL_PROGRAMS:
+        res, _ = native_typecheck(src, log_dir, "nominal_" + name)
+        for prof, line in res.items():
+            if not line.startswith(exp):
+                broken = True
+                texts.append(f"[{prof}] {name}: expected {exp}, checker says {line[:120]}")
+    text = "; ".join(texts) or f"{len(NOMINAL_PROGRAMS)} newtype / model mixing programs are accepted / rejected as documented"
+    r["native"] = text
+    if broken:
+        os.makedirs(os.path.join(common.REPLAYS_DIR, "MIRX"), exist_ok=True)
+        rp = os.path.join(common.REPLAYS_DIR, "MIRX", r["id"] + ".replay")
+        with open(rp, "w") as fh:
+            fh.write(f"mirx nominal\n# {r['statement']}\n# {r.get('deviating_path')}\n# {text}\n")
+        r.update(status="violated", replay=rp, counterexample={"path": r.get("deviating_path"), "native": text})
+    else:
+        r.update(status="inconclusive", reason=f"a feasible path deviates ({r.get('deviating_path')}) but {text}")
+    return r
+
+
+CONST_INDEXES = [("S[0]", 'FrozenStr("h")'), ("S[4]", 'FrozenStr("o")'), ("S[-1]", 'FrozenStr("o")'), ("S[-5]", 'FrozenStr("h")'), ("S[5]", "ERR"),
+                 ("S[-6]", "ERR"), ("S[-10]", "ERR"), ("S[99]", "ERR")]
+
+
+def const_index_native(log_dir):
+    import kani
+    os.makedirs(log_dir, exist_ok=True)
+    texts, broken = [], False
+    for prof in ("dev", "release"):
+        binp = kani.build_replay(prof, True, log_dir)
+        for k, (e, want) in enumerate(CONST_INDEXES):
+            path = os.path.join(log_dir, f"const_index_{k}.incn")
+            with open(path, "w") as fh:
+                fh.write(f'const S: FrozenStr = "hello"\nconst K: FrozenStr = {e}\n')
+            rc, out, _, to = common.run([binp, "constval", path, "K"], timeout=60)
+            m = re.search(r"^CONST K (.*)$", out, re.M)
+            got = m.group(1) if m else ("ERR" if "REJECTED" in out and "index out of range" in out else out.strip()[-100:])
+            if got != want:
+                broken = True
+                texts.append(f"[{prof}] const = {e}: compile time gives {got}, run time gives {want if want != 'ERR' else 'IndexError'}")
+    return broken, "; ".join(texts) or f"{len(CONST_INDEXES)} const string indexes agree with run-time indexing (value or IndexError)"
+
+
+def finish_const_index(r, log_dir):
+    broken, text = const_index_native(log_dir)
+    r["native"] = text
+    if broken:
+        os.makedirs(os.path.join(common.REPLAYS_DIR, "MIRX"), exist_ok=True)
+        rp = os.path.join(common.REPLAYS_DIR, "MIRX", r["id"] + ".replay")
+        with open(rp, "w") as fh:
+            fh.write(f"mirx constindex\n# {r['statement']}\n# {r.get('deviating_path')}\n# {text}\n")
+        r.update(status="violated", replay=rp, counterexample={"path": r.get("deviating_path"), "native": text})
+    else:
+        r.update(status="inconclusive", reason=f"a feasible path deviates ({r.get('deviating_path')}) but {text}")
+    return r
+
+
+CONST_SLICES = [("S[2:]", 'FrozenStr("llo")'), ("S[1+1:]", 'FrozenStr("llo")'), ("S[:1+1]", 'FrozenStr("he")'), ("S[::1+1]", 'FrozenStr("hlo")'),
+                ("S[N:]", 'FrozenStr("llo")'), ("S[1:4]", 'FrozenStr("ell")'), ("S[0+1:2+2]", 'FrozenStr("ell")'), ("S[::-1]", 'FrozenStr("olleh")')]
+
+
+def const_slices_native(log_dir):
+    """-> (kind, text): kind 'ok' | 'known' (only the recorded class: a written bound of unknown value folded as omitted) | 'other'"""
+    import kani
+    os.makedirs(log_dir, exist_ok=True)
+    path = os.path.join(log_dir, "const_slices.incn")
+    with open(path, "w") as fh:
+        fh.write('const S: FrozenStr = "hello"\nconst N: int = 2\n')
+        for k, (e, _) in enumerate(CONST_SLICES):
+            fh.write(f"const K{k}: FrozenStr = {e}\n")
+    texts, kinds = [], set()
+    for prof in ("dev", "release"):
+        binp = kani.build_replay(prof, True, log_dir)
+        rc, out, _, to = common.run([binp, "constval", path] + [f"K{k}" for k in range(len(CONST_SLICES))], timeout=60)
+        got = dict(re.findall(r"^CONST (K\d+) (.*)$", out, re.M))
+        if not got:
+            kinds.add("other")
+            texts.append(f"[{prof}] the const program is not accepted: {out.strip()[-200:]}")
+            continue
+        for k, (e, want) in enumerate(CONST_SLICES):
+            g = got.get(f"K{k}")
+            if g == want or g == "-":
+                continue          # the run-time value, or no recorded value at all
+            computed = "+" in e
+            kinds.add("known" if computed else "other")
+            texts.append(f"[{prof}] const = {e} records {g}; evaluating the same expression at run time gives {want}")
+    kind = "ok" if not kinds else "other" if "other" in kinds else "known"
+    return kind, "; ".join(texts) or f"{len(CONST_SLICES)} const slices record their run-time value (or none)"
+
+
+def finish_const_slice(r, log_dir):
+    kind, text = const_slices_native(log_dir)
+    r["native"] = text
+    kf = [k for k in common.load_known_findings().get("findings", []) if k.get("property") == "C06" and k.get("obligation") == "X-const_slice"]
+    if kind == "known" and kf:
+        r.update(status="known-finding", finding=f"obligation=X-const_slice {kf[0].get('summary', '')} ({text[:300]})")
+        return r
+    if kind != "ok":
+        os.makedirs(os.path.join(common.REPLAYS_DIR, "MIRX"), exist_ok=True)
+        rp = os.path.join(common.REPLAYS_DIR, "MIRX", r["id"] + ".replay")
+        with open(rp, "w") as fh:
+            fh.write(f"mirx constslice\n# {r['statement']}\n# {r.get('deviating_path')}\n# {text}\n")
+        r.update(status="violated", replay=rp, counterexample={"path": r.get("deviating_path"), "native": text})
+    else:
+        r.update(status="inconclusive", reason=f"a feasible path deviates ({r.get('deviating_path')}) but {text}")
+    return r
+
+
+CONST_VALUES = [("True and False", "Bool(false)"), ("True and True", "Bool(true)"), ("False and True", "Bool(false)"), ("True or False", "Bool(true)"),
+                ("False or False", "Bool(false)"), ("False or True", "Bool(true)"), ('"ell" in "hello"', "Bool(true)"), ('"hello" in "ell"', "Bool(false)"),
+                ('"xyz" not in "hello"', "Bool(true)"), ('"ell" not in "hello"', "Bool(false)"), ('"ab" + "cd"', 'FrozenStr("abcd")'),
+                ('"cd" + "ab"', 'FrozenStr("cdab")')]
+
+
+def const_values_native(log_dir):
+    """Compile-time folding observed through the public API (TypeCheckInfo::const_value) against what the same expression is at run time."""
+    import kani
+    os.makedirs(log_dir, exist_ok=True)
+    path = os.path.join(log_dir, "const_values.incn")
+    with open(path, "w") as fh:
+        for k, (e, _) in enumerate(CONST_VALUES):
+            cty = "FrozenStr" if " + " in e else "bool"
+            fh.write(f"const K{k}: {cty} = {e}\n")
+    texts, broken = [], False
+    for prof in ("dev", "release"):
+        binp = kani.build_replay(prof, True, log_dir)
+        rc, out, _, to = common.run([binp, "constval", path] + [f"K{k}" for k in range(len(CONST_VALUES))], timeout=60)
+        got = dict(re.findall(r"^CONST (K\d+) (.*)$", out, re.M))
+        if not got:
+            texts.append(f"[{prof}] the const program is not accepted: {out.strip()[-200:]}")
+            broken = True
+            continue
+        for k, (e, want) in enumerate(CONST_VALUES):
+            if got.get(f"K{k}") != want:
+                broken = True
+                texts.append(f"[{prof}] const = {e} folds to {got.get(f'K{k}')}, at run time it is {want}")
+    return broken, "; ".join(texts) or f"{len(CONST_VALUES)} const initialisers fold to their run-time values"
+
+
+def finish_const_values(r, log_dir):
+    broken, text = const_values_native(log_dir)
+    r["native"] = text
+    if broken:
+        os.makedirs(os.path.join(common.REPLAYS_DIR, "MIRX"), exist_ok=True)
+        rp = os.path.join(common.REPLAYS_DIR, "MIRX", r["id"] + ".replay")
+        with open(rp, "w") as fh:
+            fh.write(f"mirx constvalues\n# {r['statement']}\n# {r.get('deviating_path')}\n# {text}\n")
+        r.update(status="violated", replay=rp, counterexample={"model": r.get("model"), "path": r.get("deviating_path"), "native": text})
+    else:
+        r.update(status="inconclusive", reason=f"model {r.get('model')} ({r.get('deviating_path')}) but {text}")
+    return r
+
+
 def replay_tc(pid, line):
     log_dir = os.path.join(common.WORK_DIR, pid, "replay")
     os.makedirs(log_dir, exist_ok=True)
@@ -644,6 +1333,22 @@ def replay_tc(pid, line):
         res_n, _ = native_typecheck(src, log_dir, "compat")
         say(f"expected {exp}; checker says {res_n}")
         return any(not l.startswith(exp) for l in res_n.values())
+    if line[1] == "constvalues":
+        bad, text = const_values_native(log_dir)
+        say(text)
+        return bad
+    if line[1] == "constindex":
+        bad, text = const_index_native(log_dir)
+        say(text)
+        return bad
+    if line[1] == "constslice":
+        kind, text = const_slices_native(log_dir)
+        say(text)
+        return kind != "ok"
+    if line[1] == "nominal":
+        r = finish_nominal({"id": "replay", "statement": ""}, log_dir)
+        say(r.get("native", ""))
+        return r.get("status") == "violated"
     kind, opn, a, b, shape = line[2], line[3], line[4], line[5], (None if line[6] == "-" else line[6])
     bad, text, _ = check_programs(kind, opn, a, b, shape, log_dir)
     say(text)
